@@ -75,4 +75,27 @@ def load (acl : Acl) (de : List Nat → Option Entry) (deHeader : List Nat → O
     | none => none
   | _ => none
 
+/-! ### `SaveSnapshot` takes no lock: its three reads of the log may see three different states -/
+
+/-- the header `SaveSnapshot` builds when `oplog.Heads()` is read in state `L1` and `oplog.Len()`
+in state `L2` (the `Image`'s `entries` only serve as the header's `Size`: their number) -/
+def racingImage (L1 L2 : Log) : Image := { id := L1.id, heads := sortedHeads L1, entries := L2.entries }
+
+/-- `SaveSnapshot` racing with appends/joins, in the order of the Go code: heads from `L1`
+(`oplog.Heads()`), then the header's `Size` from `L2` (`oplog.Len()`), then one record per entry of
+`L3` (`oplog.GetEntries()`), then the trailing 0. -/
+def saveRacing (ser : Entry → List Nat) (serHeader : Image → List Nat) (L1 L2 L3 : Log) :
+    Option (List Nat) :=
+  match encodeRecs (serHeader (racingImage L1 L2) :: L3.entries.map ser) with
+  | some bs => some (bs ++ [0])
+  | none => none
+
+/-- a "tidied-up" `SaveSnapshot` that reads the entries FIRST (`L1`), then the heads (`L2`), then
+the size (`L3`): header = (id, heads of `L2`, |`L3`|), records = entries of `L1`. -/
+def saveRacingReordered (ser : Entry → List Nat) (serHeader : Image → List Nat) (L1 L2 L3 : Log) :
+    Option (List Nat) :=
+  match encodeRecs (serHeader (racingImage L2 L3) :: L1.entries.map ser) with
+  | some bs => some (bs ++ [0])
+  | none => none
+
 end Orbit.Snap
